@@ -235,6 +235,8 @@ pub struct Runner {
     pub abstract_states: BTreeSet<u64>,
     pub trigrams: BTreeSet<u64>,
     last_kinds: Vec<(&'static str, u64)>,
+    /// result and ledger of the most recent step (used by the twin driver)
+    pub last: Option<(ExecOut, Vec<Xfer>, PreQ)>,
 }
 
 impl Runner {
@@ -291,6 +293,7 @@ impl Runner {
             abstract_states: BTreeSet::new(),
             trigrams: BTreeSet::new(),
             last_kinds: vec![],
+            last: None,
         })
     }
 
@@ -384,6 +387,7 @@ impl Runner {
             self.reach(&pre, &post, step, &out);
         }
         self.obs = post;
+        self.last = Some((out.clone(), ledger.clone(), preq.clone()));
         // probes on the post-state, in forks
         for p in step.probes.iter() {
             match p {
